@@ -5,3 +5,4 @@ import Mitx.Props.C17
 import Mitx.Props.C08
 import Mitx.Props.C07
 import Mitx.Props.C05
+import Mitx.Props.C01
